@@ -557,22 +557,6 @@ type c19Universe struct {
 	V6 []kit.Bits
 }
 
-// c19V4Mapped: ::ffff:0:0/96 and longer. bio-rd's IPFromBytes turns the
-// 16-byte IPv4-mapped form into an IPv4 address by design (see C15 notes), so
-// such IPv6 NLRI are stored under an IPv4-typed prefix. Not judged here;
-// the generator moves these prefixes out of the region.
-func c19V4Mapped(b kit.Bits) bool {
-	if b.W != 128 || b.L < 96 {
-		return false
-	}
-	for i := 0; i < 10; i++ {
-		if b.A[i] != 0 {
-			return false
-		}
-	}
-	return b.A[10] == 0xff && b.A[11] == 0xff
-}
-
 func c19GenUniverse(t *rapid.T) c19Universe {
 	var u c19Universe
 	seen := map[string]bool{}
@@ -583,9 +567,6 @@ func c19GenUniverse(t *rapid.T) c19Universe {
 		}
 	}
 	for _, b := range kit.GenUniverse(t, 128, rapid.IntRange(2, 7).Draw(t, "n6"), "u6") {
-		if c19V4Mapped(b) {
-			b = b.SetBit(0, true).Canon()
-		}
 		if !seen[b.Key()] {
 			seen[b.Key()] = true
 			u.V6 = append(u.V6, b)
